@@ -24,6 +24,9 @@ import Kanzi.Drv.ImageGen
 import Kanzi.Drv.Alias
 import Kanzi.Drv.LZP
 import Kanzi.Drv.FSD
+import Kanzi.Drv.BinEnt
+import Kanzi.Drv.LZ
+import Kanzi.Drv.TPAQ
 
 open Kanzi
 
@@ -196,5 +199,9 @@ def main (args : List String) : IO UInt32 := do
   | ["alias"] => loop stdin stdout Kanzi.Drv.alias; return 0
   | ["lzp"] => loop stdin stdout Kanzi.Drv.lzp; return 0
   | ["fsd"] => loop stdin stdout Kanzi.Drv.fsd; return 0
+  | ["binent"] => loop stdin stdout Kanzi.Drv.binent; return 0
+  | ["fpaq"] => loop stdin stdout Kanzi.Drv.fpaq; return 0
+  | ["lz"] => loop stdin stdout Kanzi.Drv.lz; return 0
+  | ["tpaqpred"] => loop stdin stdout Kanzi.Drv.tpaqpred; return 0
   | ["image"] => loop stdin stdout Kanzi.Drv.image; return 0
   | _ => IO.eprintln "usage: kmodel <norm>"; return 2
